@@ -27,6 +27,8 @@ def step_bound(n):
 def check_one(sh, st, text, level, timeout=10):
     r = sh.child('optsandbox', hx(text), level, hx(SENTINEL), timeout)
     st.inc('runs')
+    if len(st.samples) < 3 and len(text) < 200:
+        st.sample({'prog': text, 'level': level, 'record': r.extra.decode('utf-8', 'replace')[:60], 'stdin_offset_after': r.in_off})
     case = {'kind': 'optsandbox', 'prog': text if len(text) < 2000 else text[:200] + '…[%d chars]' % len(text), 'level': level}
     rec = r.extra.decode('utf-8', 'replace').split(' ')
     problems = []
